@@ -1465,6 +1465,18 @@ int32_t tls13ParseServerHello(ssl_t *ssl,
            SSL_NO_TLS_1_3 to fall back to the <1.3 decode
            code path. */
         psTraceInfo("Unable to negotiate TLS 1.3, trying <1.3\n");
+        if (rc == SSL_ENCODE_RESPONSE && ssl->tls13IncorrectDheKeyShare)
+        {
+            /* HelloRetryRequest: the suite it names determines the hash of
+               the transcript, including the message_hash that replaces
+               ClientHello1 (RFC 8446, 4.4.1). */
+            if (!sslClientOfferedCipherSuite(ssl, cipher)
+                    || (ssl->cipher = sslGetCipherSpec(ssl, cipher)) == NULL)
+            {
+                ssl->err = SSL_ALERT_ILLEGAL_PARAMETER;
+                return MATRIXSSL_ERROR;
+            }
+        }
         return rc;
     }
 
